@@ -235,8 +235,14 @@ class FuncMixin:
         post.pc.append(c_new >= c_prev)
         post.ghost["$clock"] = c_new
         writebacks = []
+        # the callee may allocate: the allocation pointer only grows (objects it stores into modified fields may be new)
+        # (a callee that modifies nothing cannot publish an object: its allocations stay invisible)
+        if con.modifies:
+            na = z3.Int(fresh_name("alloc_c"))
+            post.pc.append(na >= post.alloc)
+            post.alloc = na
         for lv in con.modifies:
-            post, wb = self.havoc_lvalue(post, lv, nodes)
+            post, wb = self.havoc_lvalue(post, lv, nodes, eval_st=pre)
             if wb is not None:
                 writebacks.append(wb)
         rt = self.return_type(fdef, con) if fdef is not None else (self.ct.parse(con.returns) if con.returns else NONE)
@@ -278,8 +284,9 @@ class FuncMixin:
             out = self.assign_to(out, argnode, fr.locals[pname], mut=True)
         return out
 
-    def havoc_lvalue(self, st: State, lv: str, nodes):
-        """Havoc the location named by a modifies entry (evaluated in the callee frame)."""
+    def havoc_lvalue(self, st: State, lv: str, nodes, eval_st: State | None = None):
+        """Havoc the location named by a modifies entry.  The object owning the location is found in `eval_st` (the
+        callee's pre-state) so that `x.f` and `x.f.g` in one modifies list both refer to the objects at call time."""
         lv = lv.strip()
         node = ast.parse(lv, mode="eval").body
         if isinstance(node, ast.Name):
@@ -301,7 +308,7 @@ class FuncMixin:
         if isinstance(node, ast.Attribute):
             self.spec += 1
             try:
-                (_, base), = self._single(node.value, st)
+                (_, base), = self._single(node.value, eval_st if eval_st is not None else st)
             finally:
                 self.spec -= 1
             base = self.as_value(base)
